@@ -89,6 +89,15 @@ def workspaces(ck):
                 files[name] = files[name] + tail
             elif rng.random() < 0.3:
                 files[name] = files[name].rstrip("\r\n")
+        # a declaration cut off inside a literal that swallows its line break (an unterminated string ends with the break, an
+        # unterminated code fragment runs to the end of the text): the fold ends at column 0 of the line after
+        if rng.random() < 0.5:
+            name = rng.choice(sorted(files))
+            brk = rng.choice(["\n", "\r", "\r\n", "\n", "\r"])
+            sep = "" if files[name].endswith(("\n", "\r")) else brk
+            cut = rng.choice(['def cut9 : Mid {%s  string s = "abc%s' % (brk, brk), 'multiclass Cut9 {%s  def x {%s    string s = "ab\u00e9%s' % (brk, brk, brk),
+                              'def cut9 : Mid {%s  code c = [{ abc%s  more%s' % (brk, brk, brk), 'foreach i9 = [1] in {%s  def y9 : Mid { string t = "q%s' % (brk, brk)])
+            files[name] = files[name] + sep + cut
         out.append(files)
     return out
 
